@@ -7,12 +7,16 @@ def run(tier, seed):
     rep = Report("C07", tier, seed, "other")
     deductive(rep, "C07", ["markdown_it.rules_block.paragraph.paragraph", "markdown_it.rules_block.lheading.lheading", "markdown_it.rules_block.hr.hr", "markdown_it.rules_block.heading.heading", "markdown_it.rules_block.fence.fence", "markdown_it.rules_block.code.code", "markdown_it.rules_block.html_block.html_block"],
               "contracts.block", select=lambda q, ob, rel: rel and ob.kind not in ("SAFE", "DEC"))
+    from .. import deadstate
+    from ..report import Ob
+    for o in deadstate.obligations():
+        rep.obs.append(Ob(oid=f"C07/{o['oid']}", kind="DEAD", func=o["func"], backend="deadstate", verdict=o["verdict"], info=o["info"], line=o["line"], solver="must-assign dataflow"))
     gen_universe(rep, "vf.oracles2:c07_concat", "vf.oracles2:gen_c07", tier, "MarkdownIt.parse", "blocks(A + blank + B) == blocks(A + blank) ++ shift(blocks(B))",
                  ["commonmark"] if tier == "quick" else ["commonmark", "cm+table+strike", "js-default"],
                  "pairs (A, B): A = all newline-terminated documents of <= 2 vocabulary lines that end closed, B = non-indented vocabulary documents; distinct = distinct (sig A, sig B)",
                  "closed A x non-indented B over the line vocabulary")
     rep.explanation = ("Mixed. Deductive: failing or silent leaf rules leave line/level/tokens untouched, successful ones restore level and parentType (frame part of the statement's "
-                       "second sentence, for the leaf rules). Bounded: the concatenation law on the real parse over pairs from the line universe with the statement's side conditions.")
+                       "second sentence, for the leaf rules); DEAD obligations - parentType and tight, the two fields rules may leave changed, are dead at every rule entry: every silent dispatch is dominated by a store to parentType, every read is silent-guarded or preceded by a store (must-assign dataflow over the real source). Bounded: the concatenation law on the real parse over pairs from the line universe with the statement's side conditions.")
     rep.trusted_base = STD_TRUST
     rep.assumptions = ["restore postconditions of list/blockquote/table/reference are covered by the bounded law only"]
     return rep
